@@ -77,7 +77,7 @@ theorem Open_of_canRun {s : State} {c : Conn} (h : canRun s c = true) : Open s c
   simp only [canRun, Bool.and_eq_true, bne_iff_ne, ne_eq, Bool.not_eq_true'] at h
   exact ⟨h.1.1.1, h.1.1.2, h.1.2⟩
 
-theorem Inv_step (q : Quirks) (s : State) (e : Event) (hI : Inv s) (hok : eventOk q s e = true) :
+theorem Inv_step (q : Quirks) (hx : q.execAtomic = false) (s : State) (e : Event) (hI : Inv s) (hok : eventOk q s e = true) :
     Inv (step q s e) := by
   cases e with
   | wakeups => exact Inv_iter (Inv_wakeOne q) _ _ hI
@@ -87,7 +87,7 @@ theorem Inv_step (q : Quirks) (s : State) (e : Event) (hI : Inv s) (hok : eventO
     split
     · next hcr =>
       simp only [hcr, if_true] at hok
-      exact Inv_runBatch q now c _ _ (Inv_setConn_tx hI c _ (fun _ => ⟨rfl, rfl, rfl⟩))
+      exact Inv_runBatch q hx now c _ _ (Inv_setConn_tx hI c _ (fun _ => ⟨rfl, rfl, rfl⟩))
         (Open_setConn_tx (Open_of_canRun hcr) c _ (fun _ => ⟨rfl, rfl, rfl⟩)) hok
     · exact hI
   | timeouts now => exact Inv_iter (Inv_expireOne now) _ _ hI
@@ -112,17 +112,17 @@ theorem Inv_step (q : Quirks) (s : State) (e : Event) (hI : Inv s) (hok : eventO
       exact Inv_reap s c hI hnb
     · exact hI
 
-theorem Inv_runFrom (q : Quirks) (evs : List Event) :
+theorem Inv_runFrom (q : Quirks) (hx : q.execAtomic = false) (evs : List Event) :
     ∀ s, Inv s → allowedFrom q s evs = true → Inv (runFrom q s evs) := by
   induction evs with
   | nil => intro s h _; exact h
   | cons e r ih =>
     intro s h hok
     simp only [allowedFrom, Bool.and_eq_true] at hok
-    exact ih _ (Inv_step q s e h hok.1) hok.2
+    exact ih _ (Inv_step q hx s e h hok.1) hok.2
 
-theorem Inv_run (q : Quirks) (evs : List Event) (h : Allowed q evs) : Inv (run q evs) :=
-  Inv_runFrom q evs init Inv_init h
+theorem Inv_run (q : Quirks) (hx : q.execAtomic = false) (evs : List Event) (h : Allowed q evs) : Inv (run q evs) :=
+  Inv_runFrom q hx evs init Inv_init h
 
 /-- Prefixes of an allowed history are allowed. -/
 theorem allowedFrom_append (q : Quirks) (e₁ e₂ : List Event) :
